@@ -293,13 +293,15 @@ func (c *Collection) PullID(ctx context.Context, id string, opts ...ReadOption) 
 	}
 
 	send := make(chan *ValueChange)
+	// the underlying Pull must not outlive this subscription: when we return because the item was removed (ctx is
+	// still live) the Pull would otherwise stay subscribed with nobody receiving, blocking writers
+	ctx, cancel := context.WithCancel(ctx)
+	// subscribe before returning, a removal that happens right after PullID returns must not be missed
+	changes := c.Pull(ctx, opts...)
 	go func() {
 		defer close(send)
-		// the underlying Pull must not outlive this subscription: when we return because the item was removed (ctx is
-		// still live) the Pull would otherwise stay subscribed with nobody receiving, blocking writers
-		ctx, cancel := context.WithCancel(ctx)
 		defer cancel()
-		for change := range c.Pull(ctx, opts...) {
+		for change := range changes {
 			if change.Id != id {
 				continue
 			}
